@@ -15,7 +15,19 @@
  *
  * Program errors are detected BEFORE the library is called, exactly where the model faults:
  * a handle the program does not hold -> FAULT:Use_after_free; an operation applied to an object of
- * the wrong class, init of an object that still owns storage -> FAULT:Abort.                      */
+ * the wrong class, init of an object that still owns storage -> FAULT:Abort.
+ *
+ * Case "big comp <class> <A> <B>" (class = mbuff | str): objects of 2^31-1 bytes and more, which the value-tree
+ * model cannot be run on.  A and B (syntax and ideal order: harness/bigmap.h) are made with spif_mbuff_new() /
+ * spif_str_new(); their buff / s, len and size members are then pointed at sparse mappings (mbuff: zero pages,
+ * "p" = one byte 0x01; str: 'a' repeated with the NUL at s[len], "p" = one 'b').  The class's comp method
+ * (SPIF_OBJ_COMP, i.e. through the method table) and spif_<class>_comp are called both ways round and on each
+ * object with itself, and the answers compared with the lexicographic order of the two byte sequences.
+ * Case "big dup <class> <A> -": SPIF_OBJ_DUP of such an object (this one commits <len> bytes for the copy): the
+ * copy must be another object of the same class with its own storage, the same length, the same bytes (comp
+ * EQUAL both ways, the marked byte where it was), and independent - a byte changed in the copy leaves the
+ * original as it was and makes the two compare unequal; the copy is then deleted and the original read again.
+ * Output "BIG:ok" or "BIG:differs <call>=<answer> expected <ideal> ...". */
 #ifndef _GNU_SOURCE
 #define _GNU_SOURCE 1            /* memfd_create */
 #endif
@@ -26,6 +38,7 @@
 #include <fcntl.h>
 #include <netdb.h>
 #include <pcre.h>
+#include "bigmap.h"
 
 extern spif_iteratorclass_t SPIF_ITERATORCLASS_VAR(array);
 extern spif_iteratorclass_t SPIF_ITERATORCLASS_VAR(linked_list);
@@ -824,9 +837,122 @@ static void run_op(int n, char **t)
 static void *lv_pcre_malloc(size_t n) { return malloc(n); }
 static void lv_pcre_free(void *p) { free(p); }
 
+/* ---- objects of 2 GiB and more ---- */
+static int lv_bigbad;
+static void big_expect(const char *call, const char *a, const char *b, long long got, int want)
+{
+    if (got >= -1 && got <= 1 && lv_big_sign(got) == want) return;
+    printf("%s %s(%s,%s)=%s(%lld) expected %s", lv_bigbad ? "" : "BIG:differs", call, a, b, lv_big_cmpname(got), got, lv_big_cmpname(want));
+    lv_bigbad = 1;
+}
+static void big_expect_n(const char *what, const char *a, long long got, long long want)
+{
+    if (got == want) return;
+    printf("%s %s(%s)=%lld expected %lld", lv_bigbad ? "" : "BIG:differs", what, a, got, want);
+    lv_bigbad = 1;
+}
+static void run_big_dup(char **t)
+{
+    lv_big_t A;
+    int ismb = !strcmp(t[2], "mbuff");
+    spif_obj_t a, d;
+    unsigned char *dbytes;
+    long long dlen;
+    if (!lv_big_parse(t[3], &A) || (!ismb && strcmp(t[2], "str"))) { printf("HARNESS-ERROR:bad-big-case"); return; }
+    if (ismb) {
+        spif_mbuff_t x = spif_mbuff_new();
+        if (!lv_big_map(&A, 0, 1, 0)) { printf("HARNESS-ERROR:big-map"); return; }
+        x->buff = (spif_byteptr_t) A.base; x->len = x->size = (spif_memidx_t) A.len;
+        a = SPIF_OBJ(x);
+    } else {
+        spif_str_t x = spif_str_new();
+        if (!lv_big_map(&A, 'a', 'b', 1)) { printf("HARNESS-ERROR:big-map"); return; }
+        A.base[A.len] = 0;
+        x->s = (spif_charptr_t) A.base; x->len = (spif_stridx_t) A.len; x->size = (spif_stridx_t) A.len + 1;
+        a = SPIF_OBJ(x);
+    }
+    lv_big_readonly(&A);
+    d = SPIF_OBJ_DUP(a);
+    big_expect_n("dup:isnull", t[3], SPIF_OBJ_ISNULL(d) ? 1 : 0, 0);
+    if (!SPIF_OBJ_ISNULL(d)) {
+        big_expect_n("dup:distinct-object", t[3], d != a, 1);
+        big_expect_n("dup:same-class", t[3], SPIF_OBJ_CLASS(d) == SPIF_OBJ_CLASS(a), 1);
+        if (ismb) { dbytes = (unsigned char *) ((spif_mbuff_t) d)->buff; dlen = (long long) ((spif_mbuff_t) d)->len; }
+        else { dbytes = (unsigned char *) ((spif_str_t) d)->s; dlen = (long long) ((spif_str_t) d)->len; }
+        big_expect_n("dup:own-storage", t[3], dbytes != A.base && dbytes != NULL, 1);
+        big_expect_n("dup:len", t[3], dlen, A.len);
+        if (dbytes && dbytes != A.base && dlen == A.len) {
+            long long at = lv_big_haspoke(&A, A.len) ? A.off : A.len - 1;
+            big_expect("SPIF_OBJ_COMP(original,copy)", t[3], "copy", (long long) SPIF_OBJ_COMP(a, d), 0);
+            big_expect("SPIF_OBJ_COMP(copy,original)", "copy", t[3], (long long) SPIF_OBJ_COMP(d, a), 0);
+            if (!ismb) big_expect_n("dup:terminator", t[3], dbytes[A.len], 0);
+            if (at >= 0) {
+                /* a byte of the copy is raised: the original keeps its own, the copy now sorts after it */
+                unsigned char was = dbytes[at];
+                big_expect_n("dup:byte-at-mark", t[3], was, A.base[at]);
+                dbytes[at] = (unsigned char) (was + 1);
+                big_expect_n("original-after-writing-to-the-copy", t[3], A.base[at], was);
+                big_expect("SPIF_OBJ_COMP(original,changed copy)", t[3], "copy", (long long) SPIF_OBJ_COMP(a, d), -1);
+            }
+        }
+        SPIF_OBJ_DEL(d);
+        big_expect("SPIF_OBJ_COMP(original,original) after the copy is gone", t[3], t[3], (long long) SPIF_OBJ_COMP(a, a), 0);
+    }
+    if (ismb) { ((spif_mbuff_t) a)->buff = (spif_byteptr_t) NULL; ((spif_mbuff_t) a)->len = ((spif_mbuff_t) a)->size = 0; }
+    else { ((spif_str_t) a)->s = (spif_charptr_t) NULL; ((spif_str_t) a)->len = ((spif_str_t) a)->size = 0; }
+    SPIF_OBJ_DEL(a);
+    lv_big_unmap(&A);
+    if (!lv_bigbad) printf("BIG:ok");
+}
+static void run_big(int n, char **t)
+{
+    lv_big_t A, B;
+    int ismb;
+    spif_obj_t a, b;
+    lv_bigbad = 0;
+    if (n == 5 && !strcmp(t[1], "dup")) { run_big_dup(t); return; }
+    if (n != 5 || strcmp(t[1], "comp") || !lv_big_parse(t[3], &A) || !lv_big_parse(t[4], &B)) { printf("HARNESS-ERROR:bad-big-case"); return; }
+    ismb = !strcmp(t[2], "mbuff");
+    if (!ismb && strcmp(t[2], "str")) { printf("HARNESS-ERROR:bad-big-case"); return; }
+    if (ismb) {
+        spif_mbuff_t x = spif_mbuff_new(), y = spif_mbuff_new();
+        if (!lv_big_map(&A, 0, 1, 0) || !lv_big_map(&B, 0, 1, 0)) { printf("HARNESS-ERROR:big-map"); return; }
+        x->buff = (spif_byteptr_t) A.base; x->len = x->size = (spif_memidx_t) A.len;
+        y->buff = (spif_byteptr_t) B.base; y->len = y->size = (spif_memidx_t) B.len;
+        a = SPIF_OBJ(x); b = SPIF_OBJ(y);
+    } else {
+        spif_str_t x = spif_str_new(), y = spif_str_new();
+        if (!lv_big_map(&A, 'a', 'b', 1) || !lv_big_map(&B, 'a', 'b', 1)) { printf("HARNESS-ERROR:big-map"); return; }
+        A.base[A.len] = 0; B.base[B.len] = 0;
+        x->s = (spif_charptr_t) A.base; x->len = (spif_stridx_t) A.len; x->size = (spif_stridx_t) A.len + 1;
+        y->s = (spif_charptr_t) B.base; y->len = (spif_stridx_t) B.len; y->size = (spif_stridx_t) B.len + 1;
+        a = SPIF_OBJ(x); b = SPIF_OBJ(y);
+    }
+    lv_big_readonly(&A); lv_big_readonly(&B);
+    big_expect("SPIF_OBJ_COMP", t[3], t[4], (long long) SPIF_OBJ_COMP(a, b), lv_big_order(&A, &B));
+    big_expect("SPIF_OBJ_COMP", t[4], t[3], (long long) SPIF_OBJ_COMP(b, a), lv_big_order(&B, &A));
+    big_expect("SPIF_OBJ_COMP", t[3], t[3], (long long) SPIF_OBJ_COMP(a, a), 0);
+    big_expect("SPIF_OBJ_COMP", t[4], t[4], (long long) SPIF_OBJ_COMP(b, b), 0);
+    if (ismb) {
+        big_expect("spif_mbuff_comp", t[3], t[4], (long long) spif_mbuff_comp((spif_mbuff_t) a, (spif_mbuff_t) b), lv_big_order(&A, &B));
+        big_expect("spif_mbuff_comp", t[4], t[3], (long long) spif_mbuff_comp((spif_mbuff_t) b, (spif_mbuff_t) a), lv_big_order(&B, &A));
+        ((spif_mbuff_t) a)->buff = ((spif_mbuff_t) b)->buff = (spif_byteptr_t) NULL;      /* the mappings are not theirs to free */
+        ((spif_mbuff_t) a)->len = ((spif_mbuff_t) a)->size = ((spif_mbuff_t) b)->len = ((spif_mbuff_t) b)->size = 0;
+    } else {
+        big_expect("spif_str_comp", t[3], t[4], (long long) spif_str_comp((spif_str_t) a, (spif_str_t) b), lv_big_order(&A, &B));
+        big_expect("spif_str_comp", t[4], t[3], (long long) spif_str_comp((spif_str_t) b, (spif_str_t) a), lv_big_order(&B, &A));
+        ((spif_str_t) a)->s = ((spif_str_t) b)->s = (spif_charptr_t) NULL;
+        ((spif_str_t) a)->len = ((spif_str_t) a)->size = ((spif_str_t) b)->len = ((spif_str_t) b)->size = 0;
+    }
+    SPIF_OBJ_DEL(a); SPIF_OBJ_DEL(b);
+    lv_big_unmap(&A); lv_big_unmap(&B);
+    if (!lv_bigbad) printf("BIG:ok");
+}
+
 static void run_case(int ntok, char **tok)
 {
     int i, start, nops = 0;
+    if (ntok >= 1 && !strcmp(tok[0], "big")) { run_big(ntok, tok); fflush(stdout); return; }
     pcre_malloc = lv_pcre_malloc;
     pcre_free = lv_pcre_free;
     for (i = 0; i < MAXH; i++) { hp[i] = NULL; hk[i] = K_NONE; }
